@@ -86,6 +86,7 @@ inductive Res (α : Type) where
   | ok (r : List (Nat × α))   -- per epoch 0..N-1: (index of the inferred state, recorded hmm_cost)
   | errIndex                  -- IndexError (no epoch, or an epoch without states)
   | errValue                  -- ValueError: argmin of an empty last column
+  deriving DecidableEq
 
 /-- `HMM.estimate` on a track of `N` epochs -/
 def decode (t : Tables α) : Nat → Res α
